@@ -366,7 +366,7 @@ class HTMLSanitizer(object):
 
         for kind, data, pos in stream:
             if kind is START:
-                if waiting_for:
+                if waiting_for is not None:
                     if data[0] == waiting_for:
                         depth += 1
                     continue
@@ -397,7 +397,7 @@ class HTMLSanitizer(object):
 
             elif kind is END:
                 tag = data
-                if waiting_for:
+                if waiting_for is not None:
                     if waiting_for == tag:
                         depth -= 1
                         if not depth:
@@ -406,7 +406,7 @@ class HTMLSanitizer(object):
                     yield kind, data, pos
 
             elif kind is not COMMENT:
-                if not waiting_for:
+                if waiting_for is None:
                     yield kind, data, pos
 
     def is_safe_css(self, propname, value):
